@@ -410,9 +410,36 @@ def execute(case, keep_text=False):
         c07_real.install(cfg)
     model, obs, opt = _build(cfg)
     ref = Ref(cfg)
+    def tables_complete(step):
+        """The tables a built model offers are the union of what each of its
+        components - and the model object itself - declares (an independent
+        walk over the components, not the model's own collector)."""
+        comps = [model, model._planet, model._star, model.pressure,
+                 model._temperature_profile, model._chemistry] + \
+            list(model.contribution_list)
+        for what, meth, have in (
+                ('fit', 'fitting_parameters', model.fittingParameters),
+                ('derived', 'derived_parameters', model.derivedParameters)):
+            want = set()
+            for c_ in comps:
+                if c_ is not None:
+                    want |= set(getattr(c_, meth)().keys())
+            if set(have.keys()) != want:
+                out.violations.append(Violation(
+                    'views', 'model-tables:' + what,
+                    '%s names offered by the built model differ from those '
+                    'declared by its components in %s (declared: %s)'
+                    % (what, sorted(set(have.keys()) ^ want), sorted(want)),
+                    step))
+                return False
+        return True
+
     if cfg['kind'] == 'real':
         out.bump('probes', 'real_model_run')
         c07_real.sync_ref_from_model(ref, model, obs)
+        if not tables_complete(-1):
+            out.digest = log.digest()
+            return out
     sig = []
     last_vec = [None]
     other = [None]
@@ -791,6 +818,8 @@ def execute(case, keep_text=False):
                 for d0 in cfg['mderived']:
                     ref.derived[d0['name']]['compute'] = d0['compute']
                 out.bump('probes', 'model_rebuilt')
+                if not tables_complete(step):
+                    raise Stop()
                 stale[0] = True
                 dirty_since_compile = True
             elif k == 'rebuild_without':
